@@ -45,9 +45,12 @@ def behaviours(rep, prop, tier, sd):
     from . import ws
 
     num = 700 if tier == "quick" else 12000
-    res = tlc.tlc("XpmWorkspace.tla", "MC_Workspace_sim.cfg", workers=1, timeout=1800,
-                  extra=["-simulate", f"num={num}", "-depth", "7", "-seed", str(sd + 3)])
-    behs = ws.parse_behaviours(res.out)
+    behs = []
+    # uniformly random histories, and the focused family of the property (runs + orphans for C16, runs + cleaning for C19)
+    for cfgname, share in (("MC_Workspace_sim.cfg", 0.5), ("MC_Workspace_simruns.cfg" if prop in ("C16", "C05") else "MC_Workspace_simclean.cfg", 0.5)):
+        res = tlc.tlc("XpmWorkspace.tla", cfgname, workers=1, timeout=1800,
+                      extra=["-simulate", f"num={int(num * share)}", "-depth", "7", "-seed", str(sd + 3)])
+        behs += ws.parse_behaviours(res.out)
     if not behs:
         rep.machinery_failure("TLC exported no workspace behaviour: " + str(res.error))
         return
